@@ -164,7 +164,11 @@ static bool handle_ffi_req(int in_fd, uint32_t payload_len) {
     return true;
 }
 
-int main(void) {
+int main(int argc, char **argv) {
+    /* The VM passes the program's arguments after our own name (see vm_ffi_cop_start) */
+    g_argc = argc > 0 ? argc - 1 : 0;
+    g_argv = argv + (argc > 0 ? 1 : 0);
+
     /* Co-process reads from stdin, writes to stdout */
     vm_heap_init(&g_heap);
 
